@@ -2,6 +2,8 @@
 
 from __future__ import annotations
 
+from mc.callers import clear_lru  # noqa: E402
+
 import numpy as np
 
 from mc import layers as L
@@ -141,9 +143,9 @@ def clear_caches():
     from optyx.core import compiler, autodiff
     from optyx import analysis
 
-    compiler._compile_cached.cache_clear()
-    autodiff._gradient_cached.cache_clear()
-    analysis._compute_degree_cached.cache_clear()
+    clear_lru(compiler)
+    clear_lru(autodiff)
+    clear_lru(analysis)
 
 
 __all__ = [
